@@ -354,6 +354,11 @@ func (b *Encoder) Read(p []byte) (n int, err error) {
 		}
 		break
 	}
+	if err != nil && err != io.EOF {
+		// What could not be read is not made up: the transmission ends here
+		// (the receiver refuses the short part and the sender tries again)
+		return nn, err
+	}
 	if nn < n && err == io.EOF {
 		// The file is shorter than when it was binned.  The header has promised
 		// end-beg bytes for this part and the receiver finds the parts behind
